@@ -163,13 +163,12 @@ mutual
     | .member _ base field, v, k =>
       let (cb, vb, k1) := lowerE base k
       (cb ++ [.storeMem vb field v], k1 + 1)
-    | .swizzle ty base idxs, v, k =>
+    | .swizzle _ base idxs, v, k =>
       let (cb, vb, k1) := lowerE base k
       let bt := Expr.ty base
       let (cs, k2) := lowerStore base (.ref k1) (k1 + 1)
-      -- the instruction is annotated with the type of the swizzle expression (as `LowerToIR` does), although
-      -- its value is the whole updated vector
-      (cb ++ [.shuffle k1 ty vb v (storeShuffleIdx (vecSize bt) idxs)] ++ cs, k2)
+      -- the store shuffle yields the whole updated vector and carries the vector's type
+      (cb ++ [.shuffle k1 bt vb v (storeShuffleIdx (vecSize bt) idxs)] ++ cs, k2)
     | e, _, k =>
       -- any other node ignores the assignment context and is lowered for its value
       let (c, _, k1) := lowerE e k
